@@ -200,10 +200,11 @@ def gen_history(rng):
     if rng.random() < 0.3:
       base['_decorated'] = rng.choice([1, 2, 3])   # functools.wraps layers between gin and the function
     if r < 0.15:
-      badname = rng.choice(['1bad', '', 'a..b', 'a-b', '.a', 'a.', ' a', 'a b'])
+      badname = rng.choice(['1bad', '', 'a..b', 'a-b', '.a', 'a.', ' a', 'a b', 'bad\n', 'pkg.bad\n'])
       base.update(name=badname, nameValid=False, _name_arg=badname, _pyname='late%d' % obj)
     elif r < 0.22:
-      base.update(module='bad module', moduleValid=False, _explicit_module='bad module')
+      bm = rng.choice(['bad module', 'bad module', 'mod\n', '\nmod'])
+      base.update(module=bm, moduleValid=False, _explicit_module=bm)
     elif r < 0.3:
       # a dotted name: the object's own module is not used, an explicitly given one is - and is validated
       dotted = 'pkg.' + base['name']
